@@ -90,8 +90,16 @@ def esmRefused : List String := [
 /-- "collateral withdrawal is possible only until the cool-off period ends" -/
 def coolOffRefused : List String := ["vault.MsgWithdraw"]
 
-theorem spec_lists : Spec.breakerRefused = breakerRefused ∧ Spec.esmRefused = esmRefused ∧ Spec.coolOffRefused = coolOffRefused :=
-  ⟨rfl, rfl, rfl⟩
+/-- "whenever the oracle price needed by an operation is missing or inactive …": the operations that value an amount in
+dollars while ESM has not been executed (collateral ratio of vault create / withdraw / draw, supply cap of lend / deposit, LTV of
+borrow / draw) -/
+def priceNeeded : List String := [
+  "vault.MsgCreate", "vault.MsgWithdraw", "vault.MsgDraw", "vault.MsgDepositAndDraw",
+  "lend.Lend", "lend.Deposit", "lend.Borrow", "lend.Draw", "lend.BorrowAlternate"]
+
+theorem spec_lists : Spec.breakerRefused = breakerRefused ∧ Spec.esmRefused = esmRefused ∧ Spec.coolOffRefused = coolOffRefused ∧
+    Spec.priceNeeded = priceNeeded :=
+  ⟨rfl, rfl, rfl, rfl⟩
 
 /-! ## table obligations over the whole regenerated table -/
 
@@ -130,6 +138,10 @@ theorem spot_vault_withdraw :
 
 /-- price lookups: never swallowed into a success … -/
 theorem no_price_error_swallowed : ∀ h ∈ handlers, swallowsPrice h = false := by decide +kernel
+
+/-- every operation of the expected list contains a price lookup whose error is returned (conditional in the vault module:
+after ESM the snapshot price is used instead) -/
+theorem price_needed_have_lookup : ∀ q ∈ priceNeeded, ∃ h ∈ handlers, qname h = q ∧ hasPriceGuard h = true := by decide +kernel
 
 /-- … the handlers that contain a returned-error price lookup … -/
 theorem price_guard_pinned :
